@@ -220,6 +220,7 @@ mutual
 def bindT (R : Resolver) : Option TySet → Expr → List (String × TySet)
   | some T, .name _ x .store => [(x, T)]
   | some T, .seq _ _ es .store => bindTs R T (R.value "int" "0") 0 es
+  | rt, .starred _ v _ => bindT R rt v      -- `generic_visit`: the starred name receives the rtype of its POSITION
   | _, _ => []
 def bindTs (R : Resolver) (orig : TySet) (ityp : Option TySet) (i : Nat) : List Expr → List (String × TySet)
   | [] => []
@@ -382,6 +383,7 @@ def annE (R : Resolver) (env : FnEnv) (tin : TMap) : Expr → List (Nat × TySet
   | .unary i o e => annE R env tin e ++ selfAnn R env tin (.unary i o e)
   | .boolop _ _ vs => annEs R env tin vs
   | .ifexp _ a b c => annE R env tin a ++ annE R env tin b ++ annE R env tin c
+  | .starred _ v _ => annE R env tin v
   | .keyword _ _ _ v => annE R env tin v
   | .withitem _ c vars => annE R env tin c ++ annEs R env tin vars
   | _ => []
@@ -408,6 +410,7 @@ def annT (R : Resolver) (env : FnEnv) (tin : TMap) : Option TySet → Expr → L
   | some T, .seq i _ es .store => annTs R env tin T (R.value "int" "0") 0 es ++ [(i, T)]
   | none, .name _ _ .store => []
   | none, .seq _ _ _ .store => []
+  | rt, .starred _ v _ => annT R env tin rt v
   | _, .subscript i v s c => annE R env tin (.subscript i v s c)
   | _, _ => []
 def annTs (R : Resolver) (env : FnEnv) (tin : TMap) (orig : TySet) (ityp : Option TySet) (i : Nat) :
@@ -456,6 +459,7 @@ def suppE : Expr → Bool
   | .unary _ _ e => suppE e
   | .boolop _ _ vs => suppEs vs
   | .ifexp _ a b c => suppE a && suppE b && suppE c
+  | .starred _ (.name ..) .store => true
   | _ => false
 def suppEs : List Expr → Bool
   | [] => true
@@ -608,11 +612,18 @@ def closCovers (G : Graph) (reach : List Nat) (outs : NMap) (clos : NMap) : Bool
 
 /-! ## Taint: names whose binders the inference does not track (what the partial theorem assumes away) -/
 
+def isStarred : Expr → Bool
+  | .starred .. => true
+  | _ => false
+
 mutual
-/-- Names a target binds *without* giving them a type, for `rtype = rt`. -/
+/-- Names a target binds *without* giving them a sound type, for `rtype = rt`.  A pattern with a starred element
+is indexed by position (`enumerate(node.elts)`), which is wrong for the starred name and for everything after it:
+all its names count as untracked. -/
 def untrackedT (R : Resolver) : Option TySet → Expr → List String
   | some _, .name _ _ .store => []
-  | some T, .seq _ _ es .store => untrackedTs R T (R.value "int" "0") 0 es
+  | some T, .seq _ _ es .store =>
+      if es.any isStarred then storedEs es else untrackedTs R T (R.value "int" "0") 0 es
   | _, e => storedE e
 def untrackedTs (R : Resolver) (orig : TySet) (ityp : Option TySet) (i : Nat) : List Expr → List String
   | [] => []
